@@ -253,7 +253,7 @@ func cmdWorker(args []string) int {
 	fs.Parse(args)
 	runtime.GOMAXPROCS(1)
 	debug.SetGCPercent(-1)
-	debug.SetMemoryLimit(6 << 30) // safety net only; never reached by a well-behaved run
+	debug.SetMemoryLimit(3 << 30) // safety net only; never reached by a well-behaved run
 	loadKnown()
 	spec := registry()[*prop]
 	if spec == nil {
